@@ -22,7 +22,7 @@ TARGET = os.path.join(CACHE, 'target')
 REPO = '/repo'
 NPROC = min(16, os.cpu_count() or 4)
 
-from props import PROPS, SUITES, EXTRACT_DEPS  # noqa: E402
+from props import PROPS, SUITES, EXTRACT_DEPS, CONSTS  # noqa: E402
 
 TRUSTED_BASE = [
     "Coq 8.16.1 kernel (coqc; vm_compute used, native_compute not used)",
@@ -30,6 +30,7 @@ TRUSTED_BASE = [
     "extraction with ExtrOcamlBasic only (bool, option, unit, list, prod, sumbool, sumor; andb/orb inlined), OCaml 4.13.1, ocaml/driver.ml (parsing/printing)",
     "hand-written Gallina models of the Rust code, tied to /repo by the correspondence suites of this run (Rust harness, generators, canonical renderings, tools/check.py string comparison)",
     "guarded hook commit in /repo (cfg rustun_verif): read-only snapshot accessors",
+    "tools/gen_constants.py (regular-expression translator of the numeric constants of /repo into coq/Generated/Constants.v; a constant it cannot find becomes an impossible value, so the agreement lemma fails)",
 ]
 
 
@@ -494,6 +495,9 @@ def check(prop, tier, seed):
     obligations = []
     coverage_suites = []
 
+    # 0. translator: the constants of /repo's current source -> coq/Generated/Constants.v (rewritten only when they changed)
+    run([sys.executable, os.path.join(ROOT, 'tools', 'gen_constants.py'), REPO], cwd=ROOT, timeout=120)
+    consts = CONSTS.get(prop, [])
     # 1. theorems
     rc, out = coq_make(['Props/%s.vo' % prop] + cfg.get('extra_vo', []))
     names = theorems_of(prop)
@@ -509,6 +513,27 @@ def check(prop, tier, seed):
             log('[coq] assumptions audit FAILED:', bad[0][-1500:])
         else:
             log('[coq] %d theorems of Props/%s.v re-checked, all closed under the global context' % (len(names), prop))
+    for cv in consts:
+        rcc, outc = coq_make(['Proofs/%s.vo' % cv])
+        obligations.append('constants of the current source agree with the models (Proofs/%s.v over Generated/Constants.v)' % cv)
+        if rcc != 0:
+            m = re.search(r'File "([^"]+)", line (\d+)', outc)
+            lemma = ''
+            if m:
+                try:
+                    src_lines = open(os.path.join(COQ, m.group(1).lstrip('./'))).read().split('\n')
+                    for ln in range(int(m.group(2)) - 1, -1, -1):
+                        mm = re.match(r'\s*(?:Lemma|Theorem)\s+(\w+)', src_lines[ln])
+                        if mm:
+                            lemma = mm.group(1)
+                            break
+                except OSError:
+                    pass
+            broken.append(dict(obligation='a constant of /repo differs from the model: lemma %s of Proofs/%s.v no longer checks' % (lemma or '?', cv),
+                               where=(m.group(0) if m else ''), log=outc[-2000:]))
+            log('[coq] constants agreement FAILED: lemma %s of Proofs/%s.v' % (lemma or '?', cv))
+        else:
+            log('[coq] constants extracted from the source agree with the models (Proofs/%s.v)' % cv)
     hits = scan_forbidden()
     obligations.append('forbidden-construct scan of coq/**/*.v')
     if hits:
